@@ -360,13 +360,22 @@ class C07(core.Check):
                 t = '0 + ' + t     # a leading quote is the data directive's string syntax (C11), not an expression
                 it = dict(it, text=t)
             as_operand = rng.random() < 0.4 and not any(ch in t for ch in '[]{};')   # ';' ends an instruction statement (line grammar)
-            lines.append(f'w64 {t}' if as_operand else f'.8byte {t}')
+            if not as_operand and rng.random() < 0.2 and ';' not in t:
+                # through a constant: the value of the constant is the value of its defining expression
+                cn = f'c07k_{len(line_of)}'
+                lines.append(f'{cn} = {t}' if rng.random() < 0.6 else f'{cn} EQU {t}')
+                lines.append(f'.8byte {cn}')
+            else:
+                lines.append(f'w64 {t}' if as_operand else f'.8byte {t}')
             it = dict(it, operand=as_operand)
             line_of.append(it)
         if malformed is not None:
             pos = rng.randrange(0, len(line_of) + 1)
-            lines.insert(len(lines) - len(line_of) + pos, (f'w64 {malformed["text"]}' if rng.random() < 0.3 and malformed['text'].strip()
-                                                           else f'.8byte {malformed["text"]}'))
+            r_ = rng.random()
+            mt = malformed['text']
+            bad = f'w64 {mt}' if r_ < 0.3 and mt.strip() else (f'c07_bad = {mt}' if r_ < 0.45 else f'c07_bad EQU {mt}' if r_ < 0.55
+                                                                 else f'.8byte {mt}')
+            lines.insert(rng.randrange(len(LABELS) + 2, len(lines) + 1), bad)
         src = '\n'.join(lines) + '\n'
         return {'runs': [{'files': {fn: text, 'p.asm': src}, 'argv': ['compile', '-c', fn, 'p.asm', '-o', 'out.bin'],
                           'probes': ['steps'], 'step_limit': 400000}],
